@@ -179,33 +179,69 @@ theorem relay_lossless_index {R : Cbuf.Cbuf → PBuf → Prop} (hsim : Sim index
   rw [(runStream_sim hsim cfg host t0host strm readRc a0 b0 hR script).1]
   exact relay_lossless cfg host t0host strm readRc hm1 hm2 hb0 script hdom
 
-/-! ### `_extract_rc`: why the marker is excluded from the domain -/
+/-! ### `_extract_rc`: why the marker is excluded from the domain; the two C08 switches
 
-/-- a line without the marker passes `_extract_rc` unchanged, status 0 -/
-theorem extractRc_without_marker (l : Bytes) (h0 : ∀ b ∈ l, b ≠ 0) (hm : Spec.occurs magic l = false) :
-    extractRc l = (0, l) := by
-  have := extractRc_noMagic l (by rw [cstr_of_noNul l h0, findSub_none_iff]; exact hm)
+  The model carries two switches that belong to property C08 (status extraction), each read off
+  the code under test by the constants probe on every run, so that the same model follows the
+  unchanged and the repaired dsh.c:
+    `Cfg.rcSkipDigit` (defect D9, repaired by ee5f5b4) and `Cfg.rcEveryLine` ("late line",
+    repaired by 594f0d3).  The C05/C06 theorems above hold for ALL values of both switches (in
+    the domain no line carries the marker).  Below: facts about each variant. -/
+
+/-- a line without the marker passes `_extract_rc` unchanged, status 0 (both variants) -/
+theorem extractRc_without_marker (skip : Bool) (l : Bytes) (h0 : ∀ b ∈ l, b ≠ 0)
+    (hm : Spec.occurs magic l = false) : extractRc skip l = (0, l) := by
+  have := extractRc_noMagic skip l (by rw [cstr_of_noNul l h0, findSub_none_iff]; exact hm)
   rw [this, cstr_of_noNul l h0]
 
 /-- a stdout line that does contain the marker is cut at the marker (whatever -S says: dsh.c
     passes read_rc = true for every stdout line), so such streams cannot be relayed verbatim -/
-theorem extractRc_with_marker_cuts : (extractRc (magic ++ [51, 10])).2 = [] := by decide
+theorem extractRc_with_marker_cuts (skip : Bool) : (extractRc skip (magic ++ [51, 10])).2 = [] := by
+  cases skip <;> decide
 
-/-- defect D9 (property C08, recorded here because this model contains `_extract_rc`): when text
-    precedes the marker on a newline-terminated line the status is parsed from one past its
-    first digit: "fooXXRETCODE:3\n" yields 0 (and the text "foo\n"), "XXRETCODE:3\n" yields 3 -/
+/-- UNCHANGED variant, defect D9 (`rcSkipDigit = true`, dsh.c before ee5f5b4): when text precedes
+    the marker on a newline-terminated line the status is parsed from one past its first digit:
+    "fooXXRETCODE:3\n" yields 0 (and the text "foo\n"), "XXRETCODE:3\n" yields 3 -/
 theorem extractRc_D9_witness :
-    extractRc ([102, 111, 111] ++ magic ++ [51, 10]) = (0, [102, 111, 111, 10]) ∧
-    extractRc (magic ++ [51, 10]) = (3, []) ∧
-    (extractRc ([102, 111, 111] ++ magic ++ [50, 53, 53, 10])).1 = 55 := by decide
+    extractRc true ([102, 111, 111] ++ magic ++ [51, 10]) = (0, [102, 111, 111, 10]) ∧
+    extractRc true (magic ++ [51, 10]) = (3, []) ∧
+    (extractRc true ([102, 111, 111] ++ magic ++ [50, 53, 53, 10])).1 = 55 := by decide
 
-/-- observation for property C08 (not judged here): `_flush_lines` assigns
-    `th->rc = _extract_rc (buf)` for EVERY stdout line, and a line without the marker yields 0 --
-    so any line that follows the marker line resets the status: the stream
+/-- REPAIRED variant (`rcSkipDigit = false`): the status is the number that follows the first
+    occurrence of the marker, whatever precedes it, and the text kept is the same as before -/
+theorem extractRc_repaired_status (l : Bytes) (i : Nat) (h : findSub magic (cstr l) = some i) :
+    (extractRc false l).1 = atoi ((cstr l).drop (i + magic.length)) ∧
+    (extractRc false l).2 = (extractRc true l).2 := by
+  unfold extractRc
+  simp only [h]
+  by_cases hc : (cstr l).getLast? = some 10 ∧ i ≠ 0 <;> simp [hc]
+
+theorem extractRc_repaired_witness :
+    extractRc false ([102, 111, 111] ++ magic ++ [51, 10]) = (3, [102, 111, 111, 10]) ∧
+    extractRc false (magic ++ [51, 10]) = (3, []) ∧
+    (extractRc false ([102, 111, 111] ++ magic ++ [50, 53, 53, 10])).1 = 255 := by decide
+
+/-- UNCHANGED variant, "late line" (`rcEveryLine = true`, dsh.c before 594f0d3): `_flush_lines`
+    assigns `th->rc = _extract_rc (buf)` for EVERY stdout line, and a line without the marker
+    yields 0 -- so any line that follows the marker line resets the status: the stream
     "XXRETCODE:3\nmore\n" leaves th->rc = 0 (the LAST LINE wins, not the last marker) -/
 theorem thrc_reset_by_later_line_witness :
-    (afterLines ⟨true, false, false⟩ [104] 1 true (magic ++ [51, 10])).1 = 3 ∧
-    (afterLines ⟨true, false, false⟩ [104] 1 true (magic ++ [51, 10] ++ [109, 111, 114, 101, 10])).1 = 0 := by
+    (afterLines ⟨true, false, false, true, true⟩ [104] 1 true (magic ++ [51, 10])).1 = 3 ∧
+    (afterLines ⟨true, false, false, true, true⟩ [104] 1 true
+      (magic ++ [51, 10] ++ [109, 111, 114, 101, 10])).1 = 0 := by
+  decide
+
+/-- REPAIRED variant (`rcEveryLine = false`): a line without the marker never touches th->rc ... -/
+theorem thrc_kept_by_markerless_line (cfg : Cfg) (hfix : cfg.rcEveryLine = false) (host : Bytes) (strm : Nat)
+    (readRc : Bool) (rc : Int) (l : Bytes) (hm : findSub magic (cstr l) = none) :
+    (emitLine cfg host strm readRc rc l).1 = rc := by
+  unfold emitLine
+  simp [hfix, hm]
+
+/-- ... so the status survives later output: "XXRETCODE:3\nmore\n" leaves th->rc = 3 -/
+theorem thrc_survives_later_line_witness :
+    (afterLines ⟨true, false, false, false, false⟩ [104] 1 true
+      (magic ++ [51, 10] ++ [109, 111, 114, 101, 10])).1 = 3 := by
   decide
 
 /-! ### non-vacuity and sharpness -/
@@ -217,7 +253,7 @@ example : ∃ b0, mkFifoBuf 1 = some b0 ∧ Spec.Dom05 (markerOf true) [97, 98, 
 /-- a concrete run: "ab\nc" arriving as "a", "b\nc" on host "h" is written as "h: ab\n", "h: c"
     (repaired tail form) -/
 example : ∀ b0, mkFifoBuf 1 = some b0 →
-    (runStream fifoOps ⟨true, false, false⟩ [104] [104] 1 true b0 [[97], [98, 10, 99]]).ems =
+    (runStream fifoOps ⟨true, false, false, false, false⟩ [104] [104] 1 true b0 [[97], [98, 10, 99]]).ems =
       [⟨1, [104, 58, 32, 97, 98, 10]⟩, ⟨1, [104, 58, 32, 99]⟩] := by
   intro b0 h
   simp [mkFifoBuf, Cbuf.Spec.create, Gen.RELAY_CBUF_MIN, Gen.RELAY_CBUF_MAX] at h
@@ -228,7 +264,7 @@ example : ∀ b0, mkFifoBuf 1 = some b0 →
     arriving at once after a full buffer loses its oldest bytes -- the bound on the line length
     in the domain is what keeps `cbuf_write_from_fd` from overwriting -/
 theorem relay_beyond_domain_witness :
-    written (runStream fifoOps ⟨false, false, false⟩ [104] [104] 1 false
+    written (runStream fifoOps ⟨false, false, false, false, false⟩ [104] [104] 1 false
       ⟨⟨[], 4, 4, 4, .wrapMany⟩, 5⟩ [[97, 98, 99, 100], [101, 102, 10]]).ems ≠
       [97, 98, 99, 100, 101, 102, 10] := by decide
 
